@@ -234,7 +234,9 @@ def _scale_sources(fn, defs, direct_only=False):
 
 def pyramid_guards(repo, col):
     rule = "E-ORDER.pyramid-guard"
-    fn = repo.func("dyadic_pyramid", "compute_dyadic_downscaling")
+    # helpers that fetch the per-scale fields are inlined: the guards are
+    # recognised by the fields of info["scales"][i] / [i + 1] they relate
+    fn = repo.func("dyadic_pyramid", "compute_dyadic_downscaling", inline=True)
     cfg = fn.cfg()
     defs = local_defs(fn.node)
     src_all = _scale_sources(fn, defs)
@@ -314,6 +316,35 @@ def pyramid_guards(repo, col):
                     if n_ is not None:
                         hn.append(n_)
             und_g = bool(hn) and cfg.every_path_passes(cfg.entry, target, hn)
+        if ok and ("old", "size") in required:
+            # the guard must reject a pair of scales as soon as ONE axis is
+            # inconsistent: what holds on its fall-through path is then an
+            # elementwise equality
+            from .dataflow import holds
+            gi = g[0].ast
+            if isinstance(gi, ast.If):
+                atoms = holds(gi.test, False)
+                has_eq = any(a.op == "==" for a in atoms)
+                all_ne = any(
+                    isinstance(c, ast.Call) and (
+                        (dotted(c.func) or "") in ("all", "np.all",
+                                                   "numpy.all") or
+                        (isinstance(c.func, ast.Attribute) and
+                         c.func.attr == "all" and not c.args)) and
+                    any(isinstance(x, ast.Compare) and
+                        isinstance(x.ops[0], ast.NotEq)
+                        for x in ast.walk(c))
+                    for c in ast.walk(gi.test))
+                col.add(rule + ".quantifier", fn, norm(gi.test)[:80],
+                        has_eq or not all_ne,
+                        "passing the guard establishes the size relation on "
+                        "every axis" if has_eq else
+                        ("the guard raises only when the sizes differ on ALL "
+                         "axes (all(... != ...)): a pair of scales with an "
+                         "unsupported factor on one axis passes it"
+                         if all_ne else "quantifier of the guard not "
+                         "recognised"), node=gi,
+                        undecided=not has_eq and not all_ne)
         col.add(rule, fn, label, ok or und_g,
                 "a raising guard relating %s dominates the chunk loop"
                 % " and ".join("%s %s" % r for r in sorted(required)) if ok
@@ -783,6 +814,39 @@ def minishard_drain(repo, col):
                         other_form = True
             elif ("self." + bufattr) in norm(n.ast.test):
                 other_form = True
+    # `for id in sorted(buffer): fill the gap; flush`: another way to drain
+    for_loops = [x for x in ast.walk(fn.node) if isinstance(x, ast.For)
+                 and ("self." + bufattr) in norm(x.iter)]
+    if for_loops:
+        other_form = True
+    for lp in for_loops:
+        it = lp.iter
+        is_sorted = isinstance(it, ast.Call) and call_name(it) in (
+            "sorted",) or (isinstance(it, ast.Call) and
+                           call_name(it) in ("iter", "list", "tuple") and
+                           it.args and isinstance(it.args[0], ast.Call) and
+                           call_name(it.args[0]) == "sorted")
+        appends = any((call_name(c) or "").startswith("self.")
+                      for c in calls_in(lp))
+        if not is_sorted and appends:
+            # the in-memory reorder buffer is a plain dict: its iteration
+            # order is the order in which the chunks arrived
+            plain = False
+            init = repo.func("sharded_file_accessor", "MiniShard.__init__")
+            for x in ast.walk(init.node):
+                if isinstance(x, (ast.Dict,)) and not x.keys:
+                    plain = True
+                if isinstance(x, ast.Call) and call_name(x) == "dict" and \
+                        not x.args and not x.keywords:
+                    plain = True
+            col.add(rule + ".order", fn, norm(it)[:60], not plain,
+                    "" if not plain else
+                    "the parked chunks are appended in the iteration order of "
+                    "`%s`, which for the in-memory buffer (a plain dict) is "
+                    "their arrival order: a chunk with a lower id than one "
+                    "already handled is appended behind it, so the shard "
+                    "depends on the order of writes" % norm(it)[:50], node=lp,
+                    undecided=False)
     ok = bool(drains) and cfg.every_path_passes(cfg.entry, cfg.exit, drains)
     col.add(rule, fn, "while len(self._chunk_buffer) > 0",
             ok or (not drains and other_form),
